@@ -558,6 +558,13 @@ func c01Run(c *Ctx) {
 		}
 		c01Judge(c, cs)
 	}
+	// one token sequence, one tree, however it is cut into lines: a data table wrapped, on one physical line of
+	// 80-200 KB, and the whole program on one line, through the binary (line terminators are not tokens)
+	for _, cs := range c18LongLineCases("paren-program-equivalence") {
+		if c.Mine() {
+			c01Judge(c, cs)
+		}
+	}
 }
 
 func sameObs(a, b *Obs) bool {
